@@ -8,7 +8,8 @@ def run(chk):
     # the model's own trace of the same scenario (loopsim.compare_build).
     # check_C04_join (also on settled traces): a failed callback leaves a normally completed join handle.
     # check_C04_terminal_first: a terminal event already sent is handled before any later user message.
+    # check_C04_started_first: ActorStarted(c) is handled before the terminal event about c if post_start succeeded.
     lo = lambda links: (links.split("] [")[0] + "]") if "] [" in links else links
-    return run_loop_check(chk, lambda n, links, t: f"andb (check_C04 {links} {t}) (check_C04_terminal_first {lo(links)} {t})", "mixed",
+    return run_loop_check(chk, lambda n, links, t: f"andb (check_C04 {links} {t}) (andb (check_C04_terminal_first {lo(links)} {t}) (check_C04_started_first {lo(links)} {t}))", "mixed",
                           "supervision event missing, duplicated, misclassified or sent to a stranger",
                           complete_fn=lambda links, t: f"andb (check_C04_complete {links} {t}) (andb (check_C04_join (List.length {links}) {t}) (check_C04_join_cancel (List.length {links}) {t}))")
